@@ -95,7 +95,10 @@ func vpReadTick(op, path string) error {
 func vpTick(op, path string) error {
 	k := vpFSOps
 	vpFSOps++
-	if vpFSCrashAt >= 0 && k == vpFSCrashAt {
+	if vpFSCrashAt >= 0 && k >= vpFSCrashAt {
+		// the process is dead from here on: code that recovers the panic (deferred
+		// clean-up, a recover() in the code under test) cannot touch the disk any more
+		vpFSCrashHit = true
 		panic(vpCrash{})
 	}
 	if vpFSFaultAt >= 0 && k == vpFSFaultAt {
@@ -776,7 +779,12 @@ func vpMkLink(path, target string) {
 }
 
 // vpCrashed runs f and reports whether it ended by the injected crash.
+// vpFSCrashHit: the crash point was reached (also when the code under test
+// recovered the panic itself)
+var vpFSCrashHit bool
+
 func vpCrashed(f func()) (crashed bool) {
+	vpFSCrashHit = false
 	defer func() {
 		if p := recover(); p != nil {
 			if _, ok := p.(vpCrash); ok {
@@ -787,7 +795,7 @@ func vpCrashed(f func()) (crashed bool) {
 		}
 	}()
 	f()
-	return false
+	return vpFSCrashHit
 }
 
 // vpTreeSpec builds a small symbolic tree at path: a file, a symlink or a
